@@ -256,7 +256,7 @@ pub fn run(ctx: &Ctx) -> i32 {
                     w.push(format!("single-item race values at position {} do not follow the exponential law (sqrt(N) KS = {:.2})", o.worst_pos, o.worst_ks));
                 }
                 let d = (m - 1) as f64;
-                if d > 0. && o.argmin_chi2 > d + 6. * (2. * d).sqrt() + 6. {
+                if d > 0. && crate::common::chi2_sf(o.argmin_chi2, d) < 1e-9 {
                     w.push(format!("the position of an item's smallest value is not uniform (chi2 = {:.1} on {} d.f.)", o.argmin_chi2, d));
                 }
                 if o.incomplete > 0 {
